@@ -836,6 +836,7 @@ func (x *X) repeat(s *Step) {
 	}
 run:
 	x.inv.repeatCalled = true
+	x.ev("repeat>")
 	x.t.Repeat(acts)
 }
 
